@@ -10,7 +10,7 @@ Fail-soft: if a pattern is not found the script exits 1 and the committed snapsh
 """
 import os, re, sys
 
-REPO = "/repo"
+REPO = os.environ.get("VERIF_REPO", "/repo")   # (the registered commands use /repo; the variable serves background runs on a snapshot)
 OUT = os.path.join(os.path.dirname(os.path.dirname(os.path.abspath(__file__))), "lean", "MdwModel", "Generated", "Source.lean")
 
 def read(p):
@@ -157,18 +157,33 @@ def main():
         def reset_of(field):
             return re.search(rf"self\.{field}\s*(=[^=]|\.clear\(\)|\.truncate\(0\))|mem::take\(&mut self\.{field}\)", head) is not None
         fields = ["memory_blocks", "crashing_thread_context", "principal_mapping"]
-        resets = "some true" if all(reset_of(f) for f in fields) else "some false"
-    # init(): which steps are wrapped in `if let Err(e) = … { soft_errors.push(…) }`
+        if all(reset_of(f) for f in fields):
+            resets = "some true"
+        else:
+            # recognisably wrong only if a reset of the missing fields sits later in dump() (after the dumper exists) or
+            # the fields are plainly never reset there; a reset that moved into a helper is not recognisable
+            tail = dm.group(0)[len(head):]
+            def later(field):
+                return re.search(rf"self\.{field}\s*(=[^=]|\.clear\(\)|\.truncate\(0\))|mem::take\(&mut self\.{field}\)", tail) is not None
+            missing = [f for f in fields if not reset_of(f)]
+            calls_helper = re.search(r"self\.\w*(reset|clear)\w*\(", head) is not None
+            if calls_helper:
+                resets = "none"
+            elif any(later(f) for f in missing) or not calls_helper:
+                resets = "some false"
+    # init(): which steps push their failure as a soft error (`if let Err(e) = … { soft_errors.push }` or a `match` with
+    # such an arm), which are hard (`…?`), which are not recognisable
     im = re.search(r"pub fn init\(.*?\n    \}\n", pd, re.S)
     init_steps = []
     if im:
         ib = im.group(0)
         for name in ["stop_process", "try_filling_missing_info", "enumerate_threads", "enumerate_mappings"]:
             present = re.search(rf"\b{name}\(", ib) is not None
-            soft = re.search(rf"if let Err\(e\)\s*=\s*\n?\s*self\s*\.?(?:\s*auxv\s*\.)?\s*{name}\(", ib) is not None or \
-                   re.search(rf"if let Err\(e\) =[^;{{]*{name}\(", ib, re.S) is not None
+            soft = re.search(rf"if let Err\(\w+\)\s*=[^;{{]*{name}\(", ib, re.S) is not None or \
+                   re.search(rf"match\s+[^;{{]*{name}\([^{{]*\{{[^}}]*Err\(\w+\)\s*=>\s*\{{?\s*soft_errors\s*\.push", ib, re.S) is not None
+            hard = re.search(rf"{name}\([^;{{]*\)\s*\?", ib) is not None
             if present:
-                init_steps.append((name, soft))
+                init_steps.append((name, "some true" if soft else ("some false" if hard else "none")))
     out = []
     out.append("/- GENERATED by gen/extract.py from /repo's source — do not edit. -/")
     out.append("namespace Mdw.Src\n")
@@ -187,8 +202,8 @@ def main():
     out.append("")
     out.append("def failSpots : List String := [" + ", ".join(f'"{s}"' for s in spots) + "]")
     out.append(f"\n/-- does `dump()` reset memory_blocks / crashing_thread_context / principal_mapping on entry? (none = not recognisable) -/\ndef dumpResetsTransient : Option Bool := {resets}")
-    out.append("\n/-- the fallible steps of PtraceDumper::init: (name, failure is pushed as a soft error) -/\ndef initSteps : List (String × Bool) := [" +
-               ", ".join(f'("{n}", {str(b).lower()})' for n, b in init_steps) + "]")
+    out.append("\n/-- the fallible steps of PtraceDumper::init: (name, failure is pushed as a soft error; none = not recognisable) -/\ndef initSteps : List (String × Option Bool) := [" +
+               ", ".join(f'("{n}", {b})' for n, b in init_steps) + "]")
     out.append("\nend Mdw.Src\n")
     text = "\n".join(out)
     os.makedirs(os.path.dirname(OUT), exist_ok=True)
